@@ -1354,6 +1354,8 @@ func main() {
 	nSkip := flag.Int("skip", 300, "skip cases")
 	nLeaf := flag.Int("leaf", 300, "float leaf cases")
 	nTransport := flag.Int("transport", 200, "transport-independence cases (x5 transports)")
+	nVU := flag.Int("vu", 500, "ValidateUnicode cases")
+	nDup := flag.Int("dup", 300, "repeated-map-key cases")
 	deep := flag.Bool("deep", true, "run the deep-nesting subprocess cases")
 	child := flag.String("child", "", "(internal) run one deep case")
 	cases := flag.String("cases", "/verif/build/wcbor/cases_wirecbor", "directory for the model case files")
@@ -1366,6 +1368,8 @@ func main() {
 	sum := vh.NewSummary("enc: random item trees (all 13 constructors but IExt; depth <= 3; lengths around 23/24, 255/256, 65535/65536; boundary integers and floats) x 16 encoder option vectors, distinct by (kind, depth, length class, options); " +
 		"dec: reference-encoded alternatives (non-minimal heads, indefinite strings/arrays/maps, half/single floats, undefined) / one mutation / random bytes / all 256 first bytes x tails, distinct by (kind or first byte, outcome class, length class, options); " +
 		"skip: Raw capture and unknown-field skip on valid, mutated and cursor-wrapping inputs, distinct by (depth, outcome class, first byte); " +
+		"vu: well-/ill-formed UTF-8 (truncated, overlong, surrogates, > U+10FFFF) as text / chunked text cut at or inside characters / byte strings, in values, elements, map keys, tag 0 / 2 / other content, decoded with ValidateUnicode on, vs model dec_naked_vu and the sound / accepts / rejects oracles, distinct by (position, form, kind, cut, outcome, options); " +
+		"dup: maps with repeated keys (same integer in several widths, text vs byte-string key, +0/-0, NaN, times; nested) under MapValueReset / InterfaceReset vs model dec_naked_dup and the last-value-wins oracle, distinct by (size, depth, outcome, options); " +
 		"leaf: all 65536 half floats + float conversions, distinct by input; transport: reference-encoded items (mostly several chunked strings per item) decoded through []byte+ZeroCopy and io.Reader (unbuffered, 1-byte reads, 16 B and 4 KB buffers) vs the spec data and the []byte result; deep: 10 repeated-descriptor inputs of 3-4.5 MB in a subprocess with a 64 MB stack cap. Trivial = nil/bool encode cases")
 	c := &ctx{r: r, sum: sum}
 	c.cv = vh.NewCases(*cases, coqHeader, "case", "mismatches", 40)
@@ -1379,6 +1383,8 @@ func main() {
 	epochStream(c)
 	skipStream(c, valid, *nSkip)
 	leafStream(c, *nLeaf)
+	vuStream(c, *nVU)
+	dupStream(c, *nDup)
 	c.cv.Close()
 	transportStream(c, *nTransport, stats)
 	if *deep {
